@@ -371,6 +371,62 @@ def _always_given_fresh(prog, f, param):
     return refs > 0
 
 
+def _shared_mutable_defaults(prog):
+    """{attribute name: [(module, class name, why)]} for class-level mutable defaults of package classes that instances share:
+    a NamedTuple field with a list / dict / set default that some construction in the package leaves to the default, or a plain
+    class attribute bound to a mutable literal that no method re-binds on `self` before use (`__init__` does not set it)."""
+    import ast
+    cache = getattr(prog, "_shared_defaults_cache", None)
+    if cache is not None:
+        return cache
+
+    def mutable(v):
+        if isinstance(v, (ast.List, ast.Dict, ast.Set, ast.ListComp, ast.DictComp, ast.SetComp)):
+            return True
+        return isinstance(v, ast.Call) and (dotted_parts(v.func) or [""])[-1] in _MUTABLE_CTORS and not v.args and not v.keywords
+    out = {}
+    calls = [n for m in prog.modules.values() for n in ast.walk(m.tree) if isinstance(n, ast.Call)]
+    for m in prog.modules.values():
+        for cname, cnode in m.classnodes.items():
+            bases = {(dotted_parts(b) or ["?"])[-1] for b in cnode.bases}
+            decos = {(dotted_parts(d.func if isinstance(d, ast.Call) else d) or ["?"])[-1] for d in cnode.decorator_list}
+            if "dataclass" in decos or bases & {"Enum", "IntEnum", "IntFlag", "Flag"}:
+                continue  # dataclasses refuse mutable defaults; enum members are constants
+            is_nt = "NamedTuple" in bases
+            init_sets = set()
+            for fdef in cnode.body:
+                if isinstance(fdef, ast.FunctionDef) and fdef.name in ("__init__", "__post_init__", "__new__"):
+                    for n in ast.walk(fdef):
+                        if isinstance(n, (ast.Assign, ast.AnnAssign, ast.AugAssign)):
+                            for t in (n.targets if isinstance(n, ast.Assign) else [n.target]):
+                                if isinstance(t, ast.Attribute) and isinstance(t.value, ast.Name) and t.value.id in ("self", "member", "obj"):
+                                    init_sets.add(t.attr)
+            fields = [st.target.id for st in cnode.body if isinstance(st, ast.AnnAssign) and isinstance(st.target, ast.Name)]
+            for st in cnode.body:
+                name, val = None, None
+                if isinstance(st, ast.AnnAssign) and isinstance(st.target, ast.Name) and st.value is not None:
+                    name, val = st.target.id, st.value
+                elif isinstance(st, ast.Assign) and len(st.targets) == 1 and isinstance(st.targets[0], ast.Name) and not is_nt:
+                    name, val = st.targets[0].id, st.value
+                if name is None or not mutable(val) or name in init_sets or (name.isupper() and not is_nt):
+                    continue
+                if is_nt:
+                    pos = fields.index(name)
+                    ctor = [c for c in calls if (dotted_parts(c.func) or [""])[-1] == cname]
+                    lazy = [c for c in ctor if not (len(c.args) > pos or any(k.arg == name or k.arg is None for k in c.keywords) or any(isinstance(a, ast.Starred) for a in c.args))]
+                    if ctor and not lazy:
+                        continue  # every construction gives the field its own object
+                    why = "has the default `%s` for this field, one object shared by every record built without it" % ast.unparse(val)
+                else:
+                    why = "binds this name at class level to `%s`, one object shared by all instances" % ast.unparse(val)
+                out.setdefault(name, []).append((m, cname, why))
+    try:
+        prog._shared_defaults_cache = out
+    except Exception:
+        pass
+    return out
+
+
 def hidden_state(prog, roots, allow=()):
     """Writes to module-level state by the functions reachable from `roots` -- the result of a pure function must not depend on
     the history of earlier calls: (a) assignment to a `global` name, (b) in-place mutation of a module-level container,
@@ -405,8 +461,29 @@ def hidden_state(prog, roots, allow=()):
         return False
 
     out = []
+    shared = _shared_mutable_defaults(prog)
     for f in reach:
         fn = f.node
+        # (e) a class-level mutable default (a NamedTuple field `items: list = []`, a class attribute `seen = []` that __init__ does
+        # not replace) is ONE object shared by every instance that was not given its own: changing it in place through an instance
+        # is state that outlives the call
+        for st in ast.walk(fn):
+            attr_node = None
+            if isinstance(st, ast.Call) and isinstance(st.func, ast.Attribute) and st.func.attr in _MUTATING_METHODS and isinstance(st.func.value, ast.Attribute):
+                attr_node = st.func.value
+            elif isinstance(st, ast.AugAssign) and isinstance(st.target, ast.Attribute):
+                attr_node = st.target
+            elif isinstance(st, (ast.Assign, ast.AugAssign)):
+                tg = st.targets if isinstance(st, ast.Assign) else [st.target]
+                for t in tg:
+                    if isinstance(t, ast.Subscript) and isinstance(t.value, ast.Attribute):
+                        attr_node = t.value
+            if attr_node is None or attr_node.attr not in shared or attr_node.attr in allow:
+                continue
+            for (cm, cname, why) in shared[attr_node.attr]:
+                out.append((f, st, "changes `%s` in place (%s): %s.%s %s, so what one call puts there the next call finds" % (
+                    ast.unparse(attr_node)[:40], ast.unparse(st)[:50], cm.name, cname, why)))
+                break
         local = {a.arg for a in fn.args.args + fn.args.kwonlyargs + fn.args.posonlyargs}
         if fn.args.vararg:
             local.add(fn.args.vararg.arg)
